@@ -55,6 +55,20 @@ Theorem c07_pool_never_refuses : forall c progs s, Reach c progs s -> refused s 
 Proof. exact ex_none_refused. Qed.
 Print Assumptions c07_pool_never_refuses.
 
+(* work stealing: for_each over the local queues invokes the callback once per storage block (128 thread ids); the
+   callback begins with the regenerated guard `if (steal_success) return;`.  The model scans block by block and follows
+   that flag; with it, at most one task is taken per scan - no worker ever goes on scanning while it holds a stolen
+   task (which a second steal or the global pop would overwrite).  c07_run_once / c07_stop_drains rest on this. *)
+Theorem c07_one_task_per_steal_scan : forall c progs s, Reach c progs s ->
+  forall t th r cu it, nth_error (threads s) t = Some th -> tpc th <> WStealHeld r cu it.
+Proof. exact ex_one_task_per_scan. Qed.
+Print Assumptions c07_one_task_per_steal_scan.
+
+Theorem c07_steal_callback_guard : guard_on = true /\ (forall rest, advance rest true = None) /\
+  (steal_stops_at_first 1 = true /\ steal_stops_at_first 0 = false).
+Proof. exact (conj gen_steal_guard (conj advance_true gen_steal_first)). Qed.
+Print Assumptions c07_steal_callback_guard.
+
 (* ---- stop() drains -------------------------------------------------------------------------------------------- *)
 (* when stop() has returned, every task whose submission returned before stop() was called (acc_before) and every
    task pushed into a local queue, at any time (acc_local), has finished - hence, with at-most-once, ran exactly once *)
